@@ -724,7 +724,7 @@ func judge(w *world, b *vlib.Batch) {
 			}
 			// severity tag of each carried line
 			for x, t := range want {
-				if len(wantBySrc) == 1 && x+1 < len(e.Fmt) && !strings.Contains(e.Fmt[x+1], sevTag(siteLvl(t.Site))) {
+				if len(wantBySrc) == 1 && len(gotLines) == len(want) && x+1 < len(e.Fmt) && !strings.Contains(e.Fmt[x+1], sevTag(siteLvl(t.Site))) {
 					viol("tracer-lines:severity", fmt.Sprintf("submission %q: line %q is not shown with severity %s", r.Text, t.Text, sevTag(siteLvl(t.Site))), det)
 					break
 				}
@@ -797,6 +797,7 @@ func judge(w *world, b *vlib.Batch) {
 	b.Count("entries_after_shutdown_returned", int64(afterRet))
 	b.Count("level_flip_actions", w.flipActions.Load())
 	b.Count("twin_blocks", w.twinBlocks.Load())
+	b.Count("tracer_blocks_with_31_to_500_lines", w.longTraces.Load())
 	b.Count("odd_text_lines", w.oddLines.Load())
 	b.Count("odd_text_submissions", w.oddSubmissions.Load())
 	b.Count("submissions_after_plain_lines_of_same_goroutine", w.submitsAfterPlain.Load())
